@@ -19,6 +19,7 @@ package server
 import (
 	"bytes"
 	"encoding/json"
+	"errors"
 	"fmt"
 	"os"
 	"runtime"
@@ -29,6 +30,7 @@ import (
 	"time"
 
 	"github.com/cbeuw/Cloak/internal/client"
+	mux "github.com/cbeuw/Cloak/internal/multiplex"
 	kit "github.com/cbeuw/Cloak/internal/verifkit"
 )
 
@@ -158,6 +160,184 @@ func (r *c06Rig) runAgree(cs *c06Case, c c06Conc, probe bool) (out c06Run) {
 	return out
 }
 
+// ------------------------------------------------------------------------------------ multi-connection start
+
+type c06MultiCase struct {
+	K     int    `json:"k"`
+	Tr    string `json:"tr"`
+	Sig   string `json:"sig"`
+	User  string `json:"user"`
+	Enc   string `json:"enc"`
+	Unord bool   `json:"unord"`
+	N     int    `json:"n"`
+}
+
+func (m *c06MultiCase) sig() string {
+	return fmt.Sprintf("k%d/%s/%s/%s/%s/%v", m.K, m.Tr, m.Sig, m.User, m.Enc, m.Unord)
+}
+
+type c06MultiRun struct {
+	c06Run
+	Parked int
+}
+
+var c06MultiSid atomic.Uint32
+
+// runMulti: the k connections of one new client session (same AuthInfo: UID, session id) perform their handshakes
+// at the same time against k dispatchConnection goroutines, as client.MakeSession does with NumConn = k.
+func (r *c06Rig) runMulti(m *c06MultiCase, rng *kit.Rng) (out c06MultiRun) {
+	fail := func(key, format string, a ...any) c06MultiRun {
+		out.Key, out.What = key, fmt.Sprintf(format, a...)
+		return out
+	}
+	row := func(format string, a ...any) { out.Table = append(out.Table, fmt.Sprintf(format, a...)) }
+	us, uidn := m.User, "u1"
+	if i := strings.Index(m.User, ":"); i > 0 {
+		us, uidn = m.User[:i], m.User[i+1:]
+	}
+	cs := &c06Case{Scope: "multi", W: 2, UID: uidn, MLen: []int{1, 11, 12}[m.N%3], Served: true, Enc: m.Enc, Sid: "mid", Unord: m.Unord,
+		Sig: m.Sig, Tr: m.Tr, Sni: "fixed", UState: us, Off: 0, RightKey: true, K: m.K}
+	c := r.concretise(cs, m.N, rng)
+	c.NumConn = m.K
+	c.OffNs = int64(time.Duration(rng.Intn(120)-60) * time.Second)
+	c.Sid = 0x6d000000 + c06MultiSid.Add(1)
+	remote, auth, err := r.clientSetup(cs, c)
+	if err != nil {
+		return fail("harness:config", "ProcessRawConfig: %v", err)
+	}
+	uid := r.uids[c.Label]
+	cdn := strings.EqualFold(c.Tr, "cdn")
+	k := m.K
+	links := make([]*kit.VLink, k)
+	dones := make([]chan struct{}, k)
+	trs := make([]client.Transport, k)
+	keys := make([][32]byte, k)
+	errs := make([]error, k)
+	r.park.arm(uid, k, 150*time.Millisecond)
+	r.takeRedirect()
+	start := make(chan struct{})
+	var wg sync.WaitGroup
+	for i := 0; i < k; i++ {
+		links[i] = r.vn.NewLink(false, false)
+		dones[i] = r.serve(r.serverConn(links[i], cdn))
+		trs[i] = remote.Transport.CreateTransport()
+		links[i].End(0).SetReadDeadline(time.Now().Add(20 * time.Second))
+		wg.Add(1)
+		go func(i int) {
+			defer wg.Done()
+			<-start
+			keys[i], errs[i] = trs[i].Handshake(links[i].End(0), auth)
+		}(i)
+	}
+	close(start)
+	wg.Wait()
+	out.Parked = r.park.disarm()
+	for i := 0; i < k; i++ {
+		links[i].End(0).SetReadDeadline(time.Time{})
+	}
+	cleanup := func() {
+		for i := 0; i < k; i++ {
+			func() {
+				defer func() { recover() }()
+				trs[i].Close()
+			}()
+			links[i].End(0).Close()
+		}
+		for i := 0; i < k; i++ {
+			r.waitDone(dones[i], 5*time.Second)
+		}
+		r.purgeUsers()
+	}
+	row("one session, %d connections together: uid=%x sid=%#x method=%q enc=%s transport=%s sig=%s; authorisations in flight at once: %d", k, uid, c.Sid, c.Method, c.EncName, c.Tr, c.Sig, out.Parked)
+	for i := 0; i < k; i++ {
+		row("connection %d: key %x err %v", i, keys[i][:8], errs[i])
+	}
+	for i := 0; i < k; i++ {
+		if errs[i] != nil {
+			cleanup()
+			return fail("multi:not-accepted", "connection %d of %d of a correctly configured client's new session was not accepted: %v", i, k, errs[i])
+		}
+	}
+	for i := 1; i < k; i++ {
+		if keys[i] != keys[0] {
+			cleanup()
+			return fail("multi:keys-differ", "the %d connections of one session (uid %x, session id %#x) arriving together were sent different session keys: connection 0 got %x..., connection %d got %x...",
+				k, uid, c.Sid, keys[0][:8], i, keys[i][:8])
+		}
+	}
+	sesh := r.serverSession(uid, c.Sid)
+	if sesh == nil {
+		cleanup()
+		return fail("multi:session-missing", "all %d handshakes completed but the server has no session %#x for uid %x", k, c.Sid, uid)
+	}
+	if sk := sesh.GetSessionKey(); sk != keys[0] {
+		cleanup()
+		return fail("multi:key-not-of-served-session", "the clients were sent key %x..., the session the server serves holds %x...", keys[0][:8], sk[:8])
+	}
+	// an echo through the connections: one client session over all k connections; requests are sent until every
+	// connection has carried client data (the switchboard assigns a connection per stream), every one must be answered
+	obf, err := mux.MakeObfuscator(auth.EncryptionMethod, keys[0])
+	if err != nil {
+		cleanup()
+		return fail("harness:obfuscator", "%v", err)
+	}
+	csess := mux.MakeSession(c.Sid, mux.SessionConfig{Obfuscator: obf, Unordered: cs.Unord, MsgOnWireSizeLimit: appDataMaxLength})
+	base := make([]int64, k)
+	for i := 0; i < k; i++ {
+		base[i], _ = links[i].Stats(0)
+		csess.AddConnection(trs[i])
+	}
+	want := c06ProxyMarker + c.Method + "\n"
+	used := 0
+	for p := 0; p < 16*k && used < k; p++ {
+		resp, perr := c06ProbeOn(csess)
+		if resp != want {
+			row("request %d: %q %v", p, resp, perr)
+			csess.Close()
+			cleanup()
+			return fail("multi:echo-failed", "request %d over the %d-connection session did not come back from the proxy target of %q: %q %v", p, k, c.Method, resp, perr)
+		}
+		used = 0
+		for i := 0; i < k; i++ {
+			if b, _ := links[i].Stats(0); b > base[i] {
+				used++
+			}
+		}
+	}
+	row("echo: every request answered; %d of %d connections carried client data", used, k)
+	csess.Close()
+	cleanup()
+	return out
+}
+
+// c06ProbeOn sends one request on a new stream of an established client session.
+func c06ProbeOn(cs *mux.Session) (string, error) {
+	st, err := cs.OpenStream()
+	if err != nil {
+		return "", err
+	}
+	defer st.Close()
+	if _, err := st.Write([]byte("GET /admin/users HTTP/1.1\r\nHost: verif\r\n\r\n")); err != nil {
+		return "", err
+	}
+	type rr struct {
+		s   string
+		err error
+	}
+	ch := make(chan rr, 1)
+	go func() {
+		buf := make([]byte, 4096)
+		n, err := st.Read(buf)
+		ch <- rr{string(buf[:n]), err}
+	}()
+	select {
+	case x := <-ch:
+		return x.s, x.err
+	case <-time.After(10 * time.Second):
+		return "", errors.New("no answer on the stream within 10 s")
+	}
+}
+
 func c06Workers() int {
 	w := runtime.GOMAXPROCS(0)
 	if w > 12 {
@@ -179,11 +359,15 @@ func TestVerifC06Replay(t *testing.T) {
 		res.Note("aborted by the driver before any case was run")
 		return
 	}
-	var cases []*c06Case
+	var cases, multi []*c06Case
 	err := kit.ReadLines(kit.Env("VERIF_IN", ""), func(line []byte) error {
 		var c c06Case
 		if err := json.Unmarshal(line, &c); err != nil {
 			return err
+		}
+		if c.Scope == "multi" {
+			multi = append(multi, &c)
+			return nil
 		}
 		cases = append(cases, &c)
 		return nil
@@ -214,6 +398,7 @@ func TestVerifC06Replay(t *testing.T) {
 		i      int
 		k0, k1 int
 		round  int
+		multi  *c06MultiCase
 	}
 	jobs := make(chan job, 64)
 	var wg sync.WaitGroup
@@ -231,6 +416,25 @@ func TestVerifC06Replay(t *testing.T) {
 			defer wg.Done()
 			defer rig.close()
 			for j := range jobs {
+				if j.multi != nil {
+					if res.NumViolations() > 60 {
+						continue
+					}
+					o := rig.runMulti(j.multi, rng)
+					res.Count("multi|"+j.multi.sig(), true)
+					res.Stat("multi_starts", 1)
+					res.Stat(fmt.Sprintf("multi_connections_k%d", j.multi.K), int64(j.multi.K))
+					if o.Parked > 1 {
+						res.Stat("multi_starts_with_several_authorisations_in_flight", 1)
+					}
+					if strings.HasPrefix(o.Key, "harness:") {
+						harnessErr.Add(1)
+						res.Note("harness problem on %s: %s", j.multi.sig(), o.What)
+					} else if o.Key != "" {
+						res.Violate(o.Key, o.What, map[string]any{"kind": "multi", "multi": j.multi, "table": o.Table})
+					}
+					continue
+				}
 				cs := j.cs
 				for k := j.k0; k < j.k1; k++ {
 					if res.NumViolations() > 60 {
@@ -268,17 +472,40 @@ func TestVerifC06Replay(t *testing.T) {
 	}
 	shuffled := func(c *c06Case) bool { return c.Tr == "direct" && c.Sig == "chrome" }
 	for i, cs := range cases {
-		jobs <- job{cs, i, 0, first, 0}
+		jobs <- job{cs: cs, i: i, k0: 0, k1: first, round: 0}
 	}
 	for i, cs := range cases {
 		if shuffled(cs) && nChrome > first {
-			jobs <- job{cs, i, first, nChrome, 1}
+			jobs <- job{cs: cs, i: i, k0: first, k1: nChrome, round: 1}
 		}
 	}
 	for i, cs := range cases {
 		if !shuffled(cs) && nFixed > first {
-			jobs <- job{cs, i, first, nFixed, 2}
+			jobs <- job{cs: cs, i: i, k0: first, k1: nFixed, round: 2}
 		}
+	}
+	// multi-connection starts: k connections of ONE new session arrive together (spec/HandshakeMulti.tla: one key, the
+	// key of the registered session)
+	mdraws := 2
+	if kit.Thorough() {
+		mdraws = 20
+	}
+	mn := 0
+	for _, mc := range multi {
+		if mc.K < 2 {
+			continue
+		}
+		for d := 0; d < mdraws; d++ {
+			for _, ts := range [][2]string{{"direct", "chrome"}, {"direct", "firefox"}, {"direct", "safari"}, {"cdn", "chrome"}} {
+				for _, user := range []string{"dbok:u1", "dbok:u2", "bypass:u1"} {
+					mn++
+					jobs <- job{multi: &c06MultiCase{K: mc.K, Tr: ts[0], Sig: ts[1], User: user, N: mn, Enc: []string{"plain", "aes256gcm", "aes128gcm", "chacha20"}[mn%4], Unord: mn%5 == 0}}
+				}
+			}
+		}
+	}
+	if len(multi) == 0 {
+		res.Note("no multi-connection cases in the input")
 	}
 	close(jobs)
 	wg.Wait()
